@@ -155,6 +155,8 @@ func c04NonTrivial(text string) bool {
 	return strings.Contains(head, "JUMP_FORWARD") || strings.Contains(head, "RETURN_VALUE")
 }
 
+var c04Exhibited int
+
 func c04Program(e *Env, p *N, id string) {
 	src := Src(p)
 	code, err := CompileSrc(src)
@@ -186,7 +188,15 @@ func c04Program(e *Env, p *N, id string) {
 		finding = "C04-named-func-stmt"
 	}
 	detail := strings.Join(bad, "; ")
+	if finding == "" && c04Exhibited >= 3 {
+		// the first three unknown leaks were shrunk and exhibited on the real VM (minutes each when the
+		// scaled programs run long); the rest are reported with their certificate failure only, so that a
+		// change that unbalances a COMMON statement form does not make the check run for hours
+		e.R.Spec(src, detail+" | (not shrunk: three unknown leaks were already exhibited in this run)", "")
+		return
+	}
 	if finding == "" {
+		c04Exhibited++
 		// unknown leak: shrink it and try to exhibit the overflow by scaling the loop bounds
 		small := Shrink(p, func(q *N) bool {
 			if CtlUnderOperands(q) || hasNamedFuncStmt(q) {
@@ -202,7 +212,7 @@ func c04Program(e *Env, p *N, id string) {
 		base := EvalSrc(Src(small), 10*time.Second)
 		detail += " | minimal program:\n" + Src(small)
 		for _, f := range []int64{300, 3000, 30000} {
-			big := EvalSrc(Src(scaleLoops(small, f)), 60*time.Second)
+			big := EvalSrc(Src(scaleLoops(small, f)), 20*time.Second)
 			if ErrClass(big.Err) == "panic" && ErrClass(base.Err) != "panic" {
 				detail += fmt.Sprintf(" | with loop bounds x%d the run fails: %s\n%s", f, big.Err, Src(scaleLoops(small, f)))
 				break
